@@ -181,8 +181,69 @@ def h_laws(d0: int, d1: int, d2: int, fail0: int, delay0: int, backoff: int, idl
     return vkopf.verdict(ok)
 
 
+def smt_sharp_grid(cell=None, replay=None):
+    """E4: the sharp-timer arithmetic for EVERY integer interval (the CrossHair cells pin the interval to 1, 2, 3, 5 because
+    `x % interval` with two symbolic operands is non-linear there). The two assignments of the `sharp` branch of the real
+    `_timer` are translated from the current source; z3 decides, for all integers interval >= 1 and now >= started:
+    0 < remaining_delay <= interval, and started + k*interval == now + remaining_delay for some k (the next start is on the grid).
+    Together: it is the FIRST grid point after `now` (two grid points differ by at least one interval)."""
+    import time
+    import z3
+    from vkopf import astsmt
+    if replay is not None:
+        # concrete replay: the real statements executed by Python
+        import ast as _ast
+        import types
+        from vkopf import astsmt as _a
+        body = _a.find_branch(daemons._timer, lambda t: 'sharp' in t and 'interval' in t)
+        code = compile(_ast.Module(body=[st for st in body if st.__class__.__name__ == 'Assign'], type_ignores=[]), '<sharp>', 'exec')
+        I, d = replay['interval'], replay['passed']
+        ns = {'clock': lambda: d, 'started': 0, 'handler': types.SimpleNamespace(interval=I)}
+        exec(code, ns)
+        r = ns['remaining_delay']
+        return bool(0 < r <= I and (d + r) % I == 0)
+    t0 = time.time()
+    try:
+        body = astsmt.find_branch(daemons._timer, lambda t: 'sharp' in t and 'interval' in t)
+        assigns = [st for st in body if st.__class__.__name__ == 'Assign']
+        now, started, interval = z3.Ints('now started interval')
+        env = astsmt.translate_statements(assigns, {'started': started, 'handler.interval': interval}, {'clock': lambda tr: now})
+        remaining = env['remaining_delay']
+    except astsmt.Unsupported as e:
+        return {'status': 'harness_error', 'message': f'the sharp branch of _timer is no longer translatable: {e}'}
+    # translation validation: the same statements executed by Python itself on concrete vectors
+    import ast as _ast
+    import types
+    code = compile(_ast.Module(body=assigns, type_ignores=[]), '<sharp branch of _timer>', 'exec')
+    for (n_, s_, i_) in ((17, 3, 5), (10, 0, 5), (7, 7, 1), (1000, 1, 7), (12, 2, 10)):
+        ns = {'clock': lambda n_=n_: n_, 'started': s_, 'handler': types.SimpleNamespace(interval=i_)}
+        exec(code, ns)
+        sv = z3.Solver()
+        sv.add(now == n_, started == s_, interval == i_)
+        if str(sv.check()) != 'sat' or sv.model().eval(remaining).as_long() != ns['remaining_delay']:
+            return {'status': 'harness_error', 'message': 'encoding of the sharp branch disagrees with Python on a concrete vector'}
+    goals = {'range': z3.And(remaining > 0, remaining <= interval), 'on_grid': (now + remaining - started) % interval == 0}
+    queries = 0
+    for g, term in goals.items():
+        s = z3.Solver()
+        s.set('timeout', 60000)
+        s.add(interval >= 1, now >= started, started >= 0, z3.Not(term))
+        r = str(s.check())
+        queries += 1
+        if r == 'sat':
+            m = s.model()
+            return {'status': 'counterexample', 'paths': queries, 'queries': queries, 'message': f'z3: sat for {g}',
+                    'args': {'replay': {'interval': m.eval(interval, model_completion=True).as_long(),
+                                        'passed': m.eval(now - started, model_completion=True).as_long(), 'goal': g}}}
+        if r != 'unsat':
+            return {'status': 'inconclusive', 'message': f'z3 {r} on {g}', 'paths': queries, 'queries': queries}
+    return {'status': 'confirmed', 'paths': queries, 'harness_calls': queries, 'nontrivial_paths': queries, 'queries': queries,
+            'solver_s': round(time.time() - t0, 3), 'tags': {'smt_goal': queries},
+            'message': 'z3: both negated goals unsat for all integer intervals >= 1 (non-linear integer arithmetic)'}
+
+
 def obligations():
-    obs = []
+    obs = [Ob('smt_sharp_grid', {}, engine='smt', timeout=300)]
     for interval in (5, 1):
         for sharp in (False, True):
             q = interval == 5
